@@ -46,7 +46,7 @@ func NewParams(schema *Schema, su SimpleURL, resType string) (*Params, error) {
 		for _, word := range words {
 			if typ := schema.GetType(incRel.ToType); typ.Name != "" {
 				var ok bool
-				if incRel, ok = typ.Rels[word]; ok {
+				if incRel, ok = typ.Rels[word]; ok && schema.HasType(incRel.ToType) {
 					params.Fields[incRel.ToType] = []string{}
 				} else {
 					incs = append(incs[:i], incs[i+1:]...)
@@ -57,27 +57,31 @@ func NewParams(schema *Schema, su SimpleURL, resType string) (*Params, error) {
 	}
 
 	// Build params.Include
-	params.Include = make([][]Rel, len(incs))
+	//
+	// Only the paths made of relationships that exist in the schema (and
+	// that point to types that exist) are kept.
+	params.Include = make([][]Rel, 0, len(incs))
 
 	for i := range incs {
 		words := strings.Split(incs[i], ".")
+		path := make([]Rel, 0, len(words))
+		incRel := Rel{ToType: resType}
 
-		params.Include[i] = make([]Rel, len(words))
+		for _, word := range words {
+			typ := schema.GetType(incRel.ToType)
 
-		var incRel Rel
-
-		for w := range words {
-			if w == 0 {
-				typ := schema.GetType(resType)
-				incRel = typ.Rels[words[0]]
+			rel, ok := typ.Rels[word]
+			if typ.Name == "" || !ok || !schema.HasType(rel.ToType) {
+				path = nil
+				break
 			}
 
-			params.Include[i][w] = incRel
+			incRel = rel
+			path = append(path, rel)
+		}
 
-			if w < len(words)-1 {
-				typ := schema.GetType(incRel.ToType)
-				incRel = typ.Rels[words[w+1]]
-			}
+		if path != nil {
+			params.Include = append(params.Include, path)
 		}
 	}
 
